@@ -72,6 +72,12 @@ package vgirpc
 //@   loop 0 invariant rangeindex < len(allocs)
 //@   loop 0 invariant prevEnd == endOf(s, rangeindex+1)
 //@   loop 0 invariant forall k int :: 0 <= k && k <= rangeindex ==> gapBefore(s,k) < size
+//@   # proof hints (each is itself an obligation): the contents of the slice handed to writeAllocs
+//@   at call (*ShmSegment).writeAllocs#2 assert len(newAllocs) == cnt(s) + 1 &&
+//@       (forall k int :: 0 <= k && k < i ==> newAllocs[k][0] == entOff(s,k) && newAllocs[k][1] == entLen(s,k))
+//@   at call (*ShmSegment).writeAllocs#2 assert newAllocs[i][0] == prevEnd && newAllocs[i][1] == size
+//@   at call (*ShmSegment).writeAllocs#2 assert
+//@       forall k int :: i < k && k <= cnt(s) ==> newAllocs[k][0] == entOff(s,k-1) && newAllocs[k][1] == entLen(s,k-1)
 
 //@ func (*ShmSegment).canFitLocked
 //@   property C34
@@ -99,3 +105,7 @@ package vgirpc
 //@       (forall k int :: 0 <= k && k < cnt(s) ==> entOff(s,k) == old(entOff(s,k)) && entLen(s,k) == old(entLen(s,k)) && entOff(s,k) != offset)
 //@   loop 0 invariant rangeindex < len(allocs)
 //@   loop 0 invariant forall k int :: 0 <= k && k <= rangeindex ==> entOff(s,k) != offset
+//@   at call (*ShmSegment).writeAllocs assert len(allocs) == cnt(s) - 1 &&
+//@       (forall k int :: 0 <= k && k < i ==> allocs[k][0] == entOff(s,k) && allocs[k][1] == entLen(s,k))
+//@   at call (*ShmSegment).writeAllocs assert
+//@       forall k int :: i <= k && k < cnt(s) - 1 ==> allocs[k][0] == entOff(s,k+1) && allocs[k][1] == entLen(s,k+1)
